@@ -402,7 +402,12 @@ class ComplexBinghamTrainer:
                 # The largest eigenvalue is set to one, so all others have to
                 # be negative.
                 bounds=(-max_concentration, -1e-8),
-                kwargs={'scatter_eigenvalue': scatter_eigenvalues}
+                kwargs={'scatter_eigenvalue': scatter_eigenvalues},
+                # The unknowns span several orders of magnitude. Without
+                # scaling the default tolerances stop the solver far away
+                # from the root for concentrated distributions.
+                x_scale='jac',
+                xtol=1e-12, ftol=1e-12, gtol=1e-12,
             )
         except ValueError as e:
             raise ValueError(x0, scatter_eigenvalues) from e
